@@ -4,6 +4,8 @@
 //	header.go   Header.FieldIndex            → Gen.fieldIndexBody (the loop body as a Lean function: next / break / return),
 //	                                           Gen.fieldIndexPost, Gen.fieldIndexPrelude (token list)
 //	            Header.SearchIndex, ContainsObject → token lists
+//	            Header.FieldNumberIndex      → Gen.fieldNumberGuard, Gen.fieldNumberMatches (Bool functions), its shape as tokens
+//	            Header.ContainsObject's loop → Gen.containsObjectSkips (the `continue` conditions; the first other field wins)
 //	utils.go    InStrSliceWithCaseInsensitive → Gen.inStrSliceCI
 //	view.go     View.Fix                     → Gen.fixProjection, Gen.fixHeaderEffects (the header loop), Gen.fixViewResets
 //	            View.filter                  → Gen.filterKeeps : Tern → Bool
@@ -468,6 +470,150 @@ func genFieldIndex(out *strings.Builder) {
 	out.WriteString(leanList("containsObjectBody", "`Header.ContainsObject`", stmtTokens(findFunc(f, "Header", "ContainsObject").Body.List)))
 	out.WriteString(leanList("equalFieldIdentifiersBody", "`equalFieldIdentifiers` (how `ContainsObject` compares the formatted text of computed expressions)", stmtTokens(findFunc(f, "", "equalFieldIdentifiers").Body.List)))
 	out.WriteString(leanList("headerUpdateBody", "`Header.Update` (a derived table / CTE / aliased table gets its alias as view name)", stmtTokens(findFunc(f, "Header", "Update").Body.List)))
+}
+
+// ---------- FieldNumberIndex, ContainsObject: the predicates of their search loops ----------
+
+// fbool translates a condition over the loop variable `f` (a HeaderField) and the locals view / idx / column
+func fbool(e ast.Expr) string {
+	fsel := func(x ast.Expr) (string, bool) {
+		if s, ok := x.(*ast.SelectorExpr); ok && canon(s.X) == "f" {
+			switch s.Sel.Name {
+			case "View":
+				return "f.view", true
+			case "Column":
+				return "f.name", true
+			case "Identifier":
+				return "f.identifier", true
+			case "IsFromTable":
+				return "f.fromTable", true
+			case "IsJoinColumn":
+				return "f.isJoin", true
+			case "Number":
+				return "(f.number : Int)", true
+			}
+			die("%s: header field %s is not part of the modelled header record", pos(x), s.Sel.Name)
+		}
+		return "", false
+	}
+	str := func(x ast.Expr) string {
+		if s, ok := fsel(x); ok {
+			return s
+		}
+		if id, ok := x.(*ast.Ident); ok && (id.Name == "view" || id.Name == "column") {
+			return id.Name
+		}
+		die("%s: `%s` is not a string operand of the translated subset", pos(x), src(x))
+		return ""
+	}
+	switch x := e.(type) {
+	case *ast.ParenExpr:
+		return "(" + fbool(x.X) + ")"
+	case *ast.SelectorExpr:
+		if s, ok := fsel(x); ok && (s == "f.fromTable" || s == "f.isJoin") {
+			return s
+		}
+	case *ast.UnaryExpr:
+		if x.Op == token.NOT {
+			return "(!" + fbool(x.X) + ")"
+		}
+	case *ast.CallExpr:
+		switch canon(x.Fun) {
+		case "strings.EqualFold":
+			if len(x.Args) == 2 {
+				return "(eqFold " + str(x.Args[0]) + " " + str(x.Args[1]) + ")"
+			}
+		case "equalFieldIdentifiers":
+			if len(x.Args) == 2 {
+				return "(eqId " + str(x.Args[0]) + " " + str(x.Args[1]) + ")"
+			}
+		}
+	case *ast.BinaryExpr:
+		switch x.Op {
+		case token.LAND:
+			return "(" + fbool(x.X) + " && " + fbool(x.Y) + ")"
+		case token.LOR:
+			return "(" + fbool(x.X) + " || " + fbool(x.Y) + ")"
+		case token.EQL:
+			if l, ok := fsel(x.X); ok && l == "(f.number : Int)" && canon(x.Y) == "idx" {
+				return "(" + l + " == idx)"
+			}
+		case token.LSS:
+			if canon(x.X) == "idx" && canon(x.Y) == "1" {
+				return "decide (idx < (1 : Int))"
+			}
+			if c, ok := x.X.(*ast.CallExpr); ok && canon(c.Fun) == "len" && len(c.Args) == 1 && canon(x.Y) == "1" {
+				return "(" + str(c.Args[0]) + " == \"\")"
+			}
+		}
+	}
+	die("%s: condition `%s` outside the translated subset", pos(e), src(e))
+	return ""
+}
+
+func genOtherLookups(out *strings.Builder) {
+	f := parseFile("lib/query/header.go")
+	// FieldNumberIndex
+	fn := findFunc(f, "Header", "FieldNumberIndex")
+	var guard, match ast.Expr
+	var shape []string
+	for _, st := range fn.Body.List {
+		switch x := st.(type) {
+		case *ast.IfStmt:
+			if x.Init == nil && x.Else == nil && len(x.Body.List) == 1 && canon(x.Body.List[0]) == "return-1,errFieldNotExist" && guard == nil {
+				guard = x.Cond
+				shape = append(shape, "if(GUARD){", "return-1,errFieldNotExist", "}")
+				continue
+			}
+			die("%s: FieldNumberIndex: unexpected conditional", pos(x))
+		case *ast.RangeStmt:
+			if canon(x.Key) != "i" || x.Value == nil || canon(x.Value) != "f" || canon(x.X) != "h" || len(x.Body.List) != 1 {
+				die("%s: FieldNumberIndex: the loop is not `for i, f := range h { if … }`", pos(x))
+			}
+			is, ok := x.Body.List[0].(*ast.IfStmt)
+			if !ok || is.Init != nil || is.Else != nil || len(is.Body.List) != 1 || canon(is.Body.List[0]) != "returni,nil" {
+				die("%s: FieldNumberIndex: the loop body is not `if … { return i, nil }`", pos(x))
+			}
+			match = is.Cond
+			shape = append(shape, "for(i,f:range:h){", "if(MATCH){", "returni,nil", "}", "}")
+		default:
+			shape = append(shape, canon(st))
+		}
+	}
+	if guard == nil || match == nil {
+		die("%s: FieldNumberIndex: guard or loop not found", pos(fn))
+	}
+	out.WriteString("/-- `FieldNumberIndex`: a column number for which nothing is looked up -/\n")
+	out.WriteString("def fieldNumberGuard (idx : Int) : Bool := " + fbool(guard) + "\n\n")
+	out.WriteString("/-- `FieldNumberIndex`: the field that is returned at once -/\n")
+	out.WriteString("def fieldNumberMatches (view : String) (idx : Int) (f : HField) : Bool := " + fbool(match) + "\n\n")
+	out.WriteString(leanList("fieldNumberIndexShape", "`FieldNumberIndex` with its two conditions named GUARD and MATCH: the first matching field is returned", shape))
+
+	// ContainsObject: the loop over computed columns
+	co := findFunc(f, "Header", "ContainsObject")
+	var loop *ast.RangeStmt
+	for _, st := range co.Body.List {
+		if r, ok := st.(*ast.RangeStmt); ok {
+			loop = r
+		}
+	}
+	if loop == nil || canon(loop.Key) != "i" || loop.Value == nil || canon(loop.Value) != "f" || canon(loop.X) != "h" {
+		die("%s: ContainsObject: the loop `for i, f := range h` was not found", pos(co))
+	}
+	var skips []string
+	tail := []string{}
+	for _, st := range loop.Body.List {
+		if is, ok := st.(*ast.IfStmt); ok && is.Init == nil && is.Else == nil && len(is.Body.List) == 1 && canon(is.Body.List[0]) == "continue" {
+			skips = append(skips, fbool(is.Cond))
+			continue
+		}
+		tail = append(tail, canon(st))
+	}
+	if strings.Join(tail, ";") != "idx=i;break" || len(skips) == 0 {
+		die("%s: ContainsObject: the loop body is not {if … {continue}}* idx = i; break", pos(loop))
+	}
+	out.WriteString("/-- `ContainsObject` (not a reference): a header field is passed over when … (`eqId` = equalFieldIdentifiers, `column` = the formatted expression) -/\n")
+	out.WriteString("def containsObjectSkips (eqId : String → String → Bool) (column : String) (f : HField) : Bool :=\n  " + strings.Join(skips, " || ") + "\n\n")
 }
 
 func genInStrSlice(out *strings.Builder) {
@@ -1024,6 +1170,7 @@ func main() {
 	out.WriteString("import Csvq.Model.RelGen\n\nset_option linter.unusedVariables false\n\nnamespace Csvq.Gen\nopen Csvq Csvq.Rel\n\n")
 	genInStrSlice(&out)
 	genFieldIndex(&out)
+	genOtherLookups(&out)
 	genFix(&out)
 	genFlagWrites(&out)
 	genLoadObject(&out)
